@@ -18,6 +18,7 @@ func TestServiceIsAccepted(t *testing.T) {
 			{Order: order, Init: "zero"}, {Order: order, Init: "rich", Trigger: true},
 			{Order: order, Init: "zero", Spawn: true}, {Order: order, Init: "rich", Leaky: true},
 			{Order: order, Init: "zero", Relay: true}, {Order: order, Init: "rich", Relay: true, Trigger: true},
+			{Order: order, Init: "zero", Exits: true}, {Order: order, Init: "rich", Exits: true, Leaky: true, Trigger: true},
 		} {
 			ao := drive.Analyze(drive.Sources{"main": v.Source()}, "main", true)
 			if ao.Errors > 0 {
